@@ -122,7 +122,15 @@ def main(argv=None):
         for short, st in r.fn_stats.items():
             if st.get('success') is False and pid in g.props_of(short):
                 if not any(f.owner == short for (_, f) in failures) and not any(s_[1] == short for s_ in soft):
-                    for f in r.failures:
+                    owned = [f for f in r.failures if f.owner == short]
+                    if not owned:
+                        # the verifier names no location inside the function (both spans of the diagnostic lie in library code, e.g. the panic inside `assert!` / `unreachable!`):
+                        # the function is reported as not verified, so the ownerless failures are its failures
+                        import copy
+                        for f0 in r.failures:
+                            if f0.owner is None:
+                                f1 = copy.copy(f0); f1.owner = short; owned.append(f1)
+                    for f in owned:
                         if f.owner == short and not f.label and pid in g.props_of(short, f):      # a labelled clause names its own properties
                             md = r.modes.get(f.owner)
                             if md in ('contract_only', 'external'): soft.append((name, f.owner, 'contract-only verification of the rewritten function failed: ' + f.ident()))
@@ -187,10 +195,16 @@ def main(argv=None):
             print('KNOWN-FINDING: property=%s %s' % (pid, k['what'])); printed.add(k['what'])
     bounded_runs = []
     soft_viol = []
-    if spec.get('always_bounded') and not new_fail:
-        # a function that is permanently outside the verifier's reach (stated in DESIGN.md): bounded stand-in on every run, never counted as proved
+    if not new_fail:
+        # clauses that are permanently outside the verifier's reach (stated in DESIGN.md 3.4): bounded stand-in on every run, never counted as proved.
+        # Every property has at least the cross-unit supplement: its statement is about the public entry points, its units assume the contracts of the
+        # units of other properties (tokenizer, parser, registries, context, entry points); the replay corpus exercises the whole path.
         from vx import witness
-        ab = spec['always_bounded']
+        ab = spec.get('always_bounded') or dict(
+            function='the property through the public entry points (cross-unit supplement: what this property\'s units assume about the rest of the crate)',
+            categories=witness.PROP_CATS.get(pid, []),
+            why="the property's units are verified against the *contracts* of the functions around them; that those functions (other units, pinned primitives, the entry points) still behave so is decided by their own properties' checks - this replay reports it under this property too when the corpus has a witness",
+            bound='the differential replay corpus of vx/corpus.py for this property\'s categories (fixed cases + seed-0 random cases; the number of cases run is in `cases`)')
         try:
             tried = 0; found = None
             for cat in ab['categories']:
@@ -299,6 +313,15 @@ def _cleanup():
 if __name__ == '__main__':
     try:
         rc = main()
+    except SystemExit:
+        raise
+    except BaseException as e:
+        # a failure of the machinery itself is never an alarm: undecided, exit 2
+        import traceback
+        traceback.print_exc()
+        pid_ = next((x for x in sys.argv[1:] if not x.startswith('-')), '?')
+        print('UNDECIDED property=%s the check itself failed (%s: %s); nothing is claimed' % (pid_, type(e).__name__, str(e)[:200]))
+        rc = 2
     finally:
         _cleanup()
     sys.exit(rc)
